@@ -98,7 +98,7 @@ def run(ctx):
         ctx.case((api, skeleton(ty, 3), genval.skeleton(watch[0], 3) if watch else '', out.kind),
                  sample={'api': api, 'type': describe(ty)[:200], 'arg': short(watch[0] if watch else None, 150), 'outcome': out.brief()[:120]})
         if before != after or TRAPLOG:
-            ctx.violation('input-untouched', 'main', i,
+            ctx.violation('input-untouched', drive.current.get('sub'), i,
                           {'api': api, 'type': describe(ty), 'argument_before': short(before, 600), 'argument_after': short(after, 600),
                            'mutator_calls': short(TRAPLOG[:3], 600), 'outcome': out.brief()},
                           mech=f"{api}:{'tripwire' if TRAPLOG else 'fingerprint'}")
@@ -142,3 +142,31 @@ def run(ctx):
                     checked('__replace__', i, ty, x.__replace__, (), {name: kw[name]}, watch=[x, kw[name]])
 
     drive.for_each_case(ctx, 'main', ctx.budget, body)
+
+    # tagged unions x 3 layouts x layout-shaped near-members x every Mapping carrier (tag stripping must copy)
+    def body_tagged(i, rng, ty, T):
+        ARMED.clear()
+        keep = []
+        base = [genval.tagged_member(ty, rng) for _ in range(2)]
+        vals = list(base)
+        for b in base:
+            vals.extend(genval.tagged_layout_mutations(ty, b, rng))
+        for v in vals:
+            if not isinstance(v, dict):
+                continue
+            for cname, carrier in genval.MAP_CARRIERS + (('TrapDict', None),):
+                if carrier is None:
+                    cv = TrapDict(v)
+                    ARMED.add(id(cv))
+                else:
+                    cv = carrier(v)
+                keep.append(cv)
+                ctx.count('tagged_inputs_checked')
+                ctx.count(f"carrier_{cname}")
+                checked('from_data', i, ty, env.from_data, (cv, T))
+                if rng.random() < 0.3:
+                    checked('from_data#again', i, ty, env.from_data, (cv, T))
+
+    from .. import gentypes
+    drive.for_each_case(ctx, 'tagged', max(10, ctx.budget // 6), body_tagged,
+                        gen=lambda c, r: gentypes.gen_tagged(r, 1, overlap=r.random() < 0.5))
